@@ -54,7 +54,7 @@ func c16Same(got, want *z.StructSchema, in map[string]any, d1, d2 *c16Dest) bool
 
 func C16_Jobs() []string {
 	var out []string
-	for _, op := range []string{"pick", "omit", "extend", "merge", "merge3", "transforms", "pick-map", "omit-map", "chain", "merge-sizes"} {
+	for _, op := range []string{"pick", "omit", "extend", "merge", "merge3", "transforms", "pick-map", "omit-map", "chain", "merge-sizes", "merge-nested", "pick-empty"} {
 		for k := 0; k <= 3+3*v.Tier(); k++ { // number of struct tests on the base (spare capacity varies)
 			out = append(out, op+"/t"+string(rune('0'+k)))
 		}
@@ -157,6 +157,29 @@ func C16_Run(job string) {
 		check(base, hand([]string{"a", "b", "c"}), "C16:derivation-modified-its-operand")
 		wantOther := z.Struct(z.Schema{"d": c16Field(td), "a": c16Field(td)}).Test(c16Test("o0"))
 		check(other, wantOther, "C16:derivation-modified-its-operand")
+	case "merge-nested":
+		// a key conflict is resolved for the whole field: the later operand's nested struct replaces
+		// the earlier one (no merging of their fields or tests)
+		type N struct{ A, B int }
+		var dn1, dn2 struct {
+			In N
+			C  int
+		}
+		left := z.Struct(z.Schema{"in": z.Struct(z.Schema{"a": c16Field(ta).Required(), "b": c16Field(tb)}).Test(c16Test("left-inner")), "c": c16Field(tc)})
+		right := z.Struct(z.Schema{"in": z.Struct(z.Schema{"b": c16Field(td)})})
+		want := z.Struct(z.Schema{"in": z.Struct(z.Schema{"b": c16Field(td)}), "c": c16Field(tc)})
+		nin := map[string]any{"in": map[string]any{"b": in["b"]}, "c": in["c"]}
+		for _, m := range []*z.StructSchema{left.Merge(right), z.Struct(z.Schema{}).Merge(left, right)} {
+			e1 := m.Parse(nin, &dn1)
+			e2 := want.Parse(nin, &dn2)
+			v.Assert(sameMapsExcept(e1, e2, nil) && len(e1) == len(e2) && dn1.In.B == dn2.In.B && dn1.In.A == dn2.In.A && dn1.C == dn2.C, "C16:merge-differs-from-handwritten")
+		}
+	case "pick-empty":
+		// the fields of a Pick are exactly the selection, the empty selection included
+		for _, x := range []*z.StructSchema{base.Pick(), base.Pick(map[string]bool{}), base.Pick(map[string]bool{"a": false, "b": false}), base.Omit("a", "b", "c")} {
+			check(x, hand(nil), "C16:pick-differs-from-handwritten")
+		}
+		check(base, hand([]string{"a", "b", "c"}), "C16:derivation-modified-its-operand")
 	case "merge-sizes":
 		// later operands win whatever the relative sizes of the field maps
 		small := z.Struct(z.Schema{"a": c16Field(td)}).Test(c16Test("s"))
@@ -254,7 +277,7 @@ func C17_Jobs() []string {
 	for _, op := range c17NotOps {
 		out = append(out, "not/"+op)
 	}
-	out = append(out, "not-scope", "not-empty-arg", "lastcall/int", "lastcall/str", "lastcall/slice", "lastcall/bool", "lastcall/float", "lastcall/time", "lastcall/options", "options/local", "options/shared-test", "options/not-moved", "not-with-options", "coercer/local", "coercer/slice", "coercer/nested", "shared/fields", "shared/slice")
+	out = append(out, "not-scope", "not-empty-arg", "lastcall/int", "lastcall/str", "lastcall/slice", "lastcall/bool", "lastcall/float", "lastcall/time", "lastcall/options", "options/local", "options/shared-test", "options/not-moved", "not-with-options", "coercer/local", "coercer/slice", "coercer/nested", "coercer/constructors", "shared/fields", "shared/slice")
 	return out
 }
 func C17_Covers() []string { return []string{"checked"} }
@@ -447,6 +470,31 @@ func C17_Run(job string) {
 		}
 		v.Assert(len(errs) == v.B2I(!(x > g))+v.B2I(!(x < l)), "C17:options-changed-the-verdict")
 	case "coercer":
+		if b == "constructors" {
+			// WithCoercer passed to ANY constructor replaces that schema's coercion
+			calls := 0
+			var d struct {
+				I   int
+				I32 int32
+				I64 int64
+				F   float64
+				F32 float32
+				B   bool
+				S   string
+				T   time.Time
+			}
+			t1 := time.Unix(7, 0).UTC()
+			mk := func(out any) z.SchemaOption {
+				return z.WithCoercer(func(x any) (any, error) { calls++; return out, nil })
+			}
+			errs := z.Struct(z.Schema{"i": z.Int(mk(7)), "i32": z.Int32(mk(int32(7))), "i64": z.Int64(mk(int64(7))), "f": z.Float64(mk(7.5)), "f32": z.Float32(mk(float32(7.5))),
+				"b": z.Bool(mk(true)), "s": z.String(mk("seven")), "t": z.Time(mk(t1))}).
+				Parse(map[string]any{"i": "zz", "i32": "zz", "i64": "zz", "f": "zz", "f32": "zz", "b": "zz", "s": 1, "t": "zz"}, &d)
+			v.Assert(errs == nil && calls == 8, "C17:withcoercer-not-applied")
+			v.Assert(d.I == 7 && d.I32 == 7 && d.I64 == 7 && d.F == 7.5 && d.F32 == 7.5 && d.B && d.S == "seven" && d.T.Equal(t1), "C17:withcoercer-not-applied")
+			v.Cover("checked")
+			return
+		}
 		if b == "nested" {
 			// WithCoercer on an outer schema (slice of slices, slice of pointers to slices, slice of
 			// structs) configures that schema only: the nested schemas keep their own coercion, also
